@@ -438,6 +438,8 @@ def rule_R8(piece, src, start, end, loops, loop_specs, r9=False):
         piece.replace(start + m.start(), start + m.end(), 'verif_clone_from(&mut %s, &%s)' % (m.group(1), m.group(2)), 'R8:clone_from')
     for m in re.finditer(r'([\w\.]+(?:\(\))?)\.join\(&([\w\.]+)\) \+ "\\n"', seg):
         piece.replace(start + m.start(), start + m.end(), 'verif_join_nl(&%s, &%s)' % (m.group(1), m.group(2)), 'R8:join_nl')
+    for m in re.finditer(r'\(([\w\.]+) as f64 / ([\w\.]+) as f64\)\.floor\(\) as usize', seg):
+        piece.replace(start + m.start(), start + m.end(), 'verif_floor_div(%s, %s)' % (m.group(1), m.group(2)), 'R8:floor_div')
     for m in re.finditer(r'Vec::from_iter\((\w+)\)', seg):
         piece.replace(start + m.start(), start + m.end(), 'verif_vec_from_set(%s)' % m.group(1), 'R8:vec_from_set')
     for m in re.finditer(r'(\[\s*(?:\([^\]]*?)\])\s*\.iter\(\)\s*\.cloned\(\)\s*\.collect\(\)', seg, re.S):
@@ -503,6 +505,28 @@ def rule_R9(piece, toks):
         elif t.kind == 'num' and ('f64' in t.text or re.fullmatch(r'[0-9]+\.[0-9]+', t.text)):
             raise LostAnchor('R9: float literal %s has no abstraction' % t.text)
 
+
+
+def apply_rewrite_all(piece, src, start, end, sections):
+    """//@rewrite-all /regex/ [dotall]   body = replacement text (\\1.. allowed).  A unit-specific, logged
+    rewrite (M3: code that is dropped and replaced by a stub call).  At least one match is required."""
+    for k, v in sections:
+        if not k.startswith('rewrite-all '):
+            continue
+        spec = k[len('rewrite-all '):].strip()
+        flags = 0
+        if spec.endswith(' dotall'):
+            flags = re.S
+            spec = spec[:-7].strip()
+        m = re.match(r'/(.*)/$', spec, re.S)
+        if not m:
+            raise ValueError('bad rewrite-all ' + k)
+        rx = re.compile(m.group(1), flags)
+        ms = list(rx.finditer(src.text, start, end))
+        if not ms:
+            raise LostAnchor('rewrite-all /%s/: no match' % rx.pattern)
+        for mm in ms:
+            piece.replace(mm.start(), mm.end(), mm.expand(v.strip('\n')), 'M3:rewrite /%s/' % rx.pattern)
 
 # --------------------------------------------------------------------------
 # directive parsing
@@ -663,7 +687,7 @@ def _extract_fn(src, first, o, c, impl_info, rules, sections, opts, entry, repor
         elif k.startswith('after-stmt ') or k.startswith('before-line ') or k.startswith('after-line '):
             w, spec = k.split(' ', 1)
             anchors.append((w, spec, v))
-        elif k.startswith('rename '):
+        elif k.startswith('rewrite-all '):
             pass
         else:
             raise ValueError('unknown section //@' + k)
@@ -676,6 +700,7 @@ def _extract_fn(src, first, o, c, impl_info, rules, sections, opts, entry, repor
     if want_loops is not None and int(want_loops) != len(loops):
         raise LostAnchor('function %s has %d loops, template expects %s' % (entry['name'], len(loops), want_loops))
 
+    apply_rewrite_all(piece, src, s, e, sections)
     if 'R1' in rules:
         rule_R1(piece, ftoks[:o - first])
     if 'R2' in rules:
@@ -857,6 +882,7 @@ def _extract_stmts(src, name, rules, sections, opts, entry, report):
                 if j <= i1:
                     loops.append({'kw': i, 'open': j, 'close': match_close(toks, j), 'kind': t.text})
             i += 1
+    apply_rewrite_all(piece, src, s, e, sections)
     if 'R8' in rules:
         rule_R8(piece, src, s, e, loops, loop_specs, 'R9' in rules)
     if 'R5' in rules:
